@@ -48,8 +48,11 @@ def run(ctx):
         if st and f.argc == 2:
             inc_fn = f
         r = f.origin_local(0)
-        if f.rec.get("ret") == "u8" and f.argc == 2 and mentions(r, lambda s: s[0] == "index" and s[1] == base):
-            get_fn = f
+        if f.rec.get("ret") == "u8" and f.argc == 2 and f.locals[2]["ty"] in ("u64", "usize", "u32") and get_fn is None:
+            # the read *by position*: its result is a cell of the row, directly or through private helpers (`value_in(Slot::of(pos))`)
+            if mentions(r, lambda s: s[0] == "index" and s[1] == base) or \
+               any(mentions(p_.ret, lambda s: s[0] == "index" and strip_site(s[1]) == base) for p_ in ipaths(F, f, stop=lambda n_: False, depth=3)):
+                get_fn = f
     ctx.check(inc_fn is not None and get_fn is not None, "R14.1", "counter-accessors", "packed-counter increment and read functions found", detail="%s %s" % (inc_fn.name if inc_fn else None, get_fn.name if get_fn else None))
     if inc_fn is None or get_fn is None:
         return
@@ -514,6 +517,24 @@ def run(ctx):
                 bad.append("the sketch is not asked once for the given key hash")
                 continue
             if not has:
+                # branch-free form: `sketch + u8::from(doorkeeper.has(key))` / `sketch + has(key) as u8` adds 1 iff the doorkeeper
+                # has the key by arithmetic (a bool converts to 0 or 1)
+                def bool_as_int(x):
+                    x = strip_site(x)
+                    while isinstance(x, tuple) and x and (x[0] == "cast" or (x[0] == "call" and x[1].endswith("::from") and len(x[2]) == 1)):
+                        x = strip_site(x[1] if x[0] == "cast" else x[2][0])
+                    return x
+                r_ = strip_site(p.ret)
+                base = strip_site(sk[0].res)
+                ok_ = False
+                if r_[0] == "binop" and r_[1] in ("Add", "AddUnchecked", "AddWithOverflow"):
+                    for a_, b_ in ((r_[2], r_[3]), (r_[3], r_[2])):
+                        h_ = bool_as_int(b_)
+                        if strip_site(a_) == base and h_[0] == "call" and h_[1] in has_fns and len(h_[2]) >= 2 and same_value(h_[2][1], ("param", 2)):
+                            ok_ = True
+                if ok_:
+                    rows_ |= {True, False}
+                    continue
                 bad.append("doorkeeper not consulted")
                 continue
             if not same_value(has[0][1][2][1], ("param", 2)):
